@@ -41,7 +41,8 @@ struct Shared {
     violations: std::sync::Mutex<Vec<(String, String)>>,
 }
 
-fn run_program(ti: usize, bars: &[ProgressBar], mp: &Option<MultiProgress>, anchor: &Option<ProgressBar>, ops: &[Op], sh: &Shared, installed: &mut Vec<bool>) {
+#[allow(clippy::too_many_arguments)]
+fn run_program(ti: usize, bars: &[ProgressBar], mp: &Option<MultiProgress>, mp_term: &Option<SimTerm>, anchor: &Option<ProgressBar>, ops: &[Op], sh: &Shared, installed: &mut Vec<bool>) {
     for (i, op) in ops.iter().enumerate() {
         let b = (op.n0() as usize) % bars.len();
         let pb = &bars[b];
@@ -189,6 +190,37 @@ fn run_program(ti: usize, bars: &[ProgressBar], mp: &Option<MultiProgress>, anch
                     mp.set_move_cursor(false);
                 }
             }),
+            // the rest of the public calls on a handle (each takes the bar's lock, some of them
+            // the MultiProgress lock or the ticker slot as well)
+            "misc" => call(|| match op.n1() % 16 {
+                0 => pb.set_tab_width((op.n1() / 16 % 9) as usize),
+                1 => pb.set_prefix("p"),
+                2 => pb.set_position(op.n1() / 16),
+                3 => pb.dec(1),
+                4 => pb.inc_length(2),
+                5 => pb.dec_length(1),
+                6 => pb.unset_length(),
+                7 => pb.force_draw(),
+                8 => pb.reset_eta(),
+                9 => pb.reset_elapsed(),
+                10 => pb.finish_using_style(),
+                11 => drop(pb.clone().with_message("wm").with_prefix("wp")),
+                12 => drop(pb.clone().with_position(op.n1() / 16).with_tab_width(4)),
+                13 => drop(pb.clone().with_style(ProgressStyle::with_template("{msg} {pos}").unwrap())),
+                14 => {
+                    use std::io::Write;
+                    let _ = pb.wrap_write(std::io::sink()).write_all(b"abc");
+                }
+                _ => {
+                    let _ = (pb.is_hidden(), mp.as_ref().map(|m| m.is_hidden()));
+                }
+            }),
+            // the MultiProgress is hidden and gets its terminal back
+            "mp_target" => call(|| {
+                if let (Some(mp), Some(t)) = (mp, mp_term) {
+                    mp.set_draw_target(if op.n1() % 2 == 0 { ProgressDrawTarget::hidden() } else { ProgressDrawTarget::term_like(Box::new(t.clone())) });
+                }
+            }),
             "advance" => {
                 sched::advance(op.n1());
                 Ok(())
@@ -225,6 +257,8 @@ fn exec_race(sc: &Scenario) -> Report {
         } else {
             None
         };
+        // (the terminal a visible MultiProgress may lose and get back)
+        let mp_term: Option<SimTerm> = (mp.is_some() && sc.c("visible") == 1).then(|| term.clone());
         let mut bars: Vec<ProgressBar> = vec![];
         for i in 0..nb {
             let target = if mp.is_some() || sc.c("visible") == 0 {
@@ -254,12 +288,13 @@ fn exec_race(sc: &Scenario) -> Report {
         for (ti, ops) in sc.threads.iter().enumerate().skip(1) {
             let my_bars: Vec<ProgressBar> = bars.iter().map(|b| b.clone()).collect();
             let my_mp = mp.clone();
+            let my_term = mp_term.clone();
             let my_anchor = anchor.clone();
             let ops = ops.clone();
             let sh2 = sh.clone();
             handles.push(verif_simrt::thread::spawn_named(&format!("user-{ti}"), move || {
                 let mut installed = vec![false; my_bars.len()];
-                run_program(ti, &my_bars, &my_mp, &my_anchor, &ops, &sh2, &mut installed);
+                run_program(ti, &my_bars, &my_mp, &my_term, &my_anchor, &ops, &sh2, &mut installed);
                 drop(my_anchor);
                 // a thread that installed a ticker and leaves it installed: the ticker lives on
                 // with the bar; it is still "allowed"
@@ -269,7 +304,7 @@ fn exec_race(sc: &Scenario) -> Report {
         }
         let ops0 = sc.threads.first().cloned().unwrap_or_default();
         let mut installed = vec![false; bars.len()];
-        run_program(0, &bars, &mp, &anchor, &ops0, &sh, &mut installed);
+        run_program(0, &bars, &mp, &mp_term, &anchor, &ops0, &sh, &mut installed);
         for h in handles {
             if let Err(p) = h.join() {
                 r.violate("C08.no_panic", format!("user thread panicked: {}", sched::panic_message(&p)));
@@ -552,7 +587,7 @@ impl Check for C08 {
         "C08"
     }
     fn rule_text(&self) -> String {
-        "race: 2..3 simulated user threads each run 2..6 calls of update/enable_steady_tick/disable_steady_tick/tick/inc/set_message/println/suspend/finish/is_finished/getters/clone+drop/reset/set_length/mp.println/mp.suspend/mp.clear/mp.remove/mp.add (re-attach)/finish through a clone dropped on the same thread/set_style/message+prefix+elapsed+duration+per_sec+style getters/downgrade+upgrade/wrap_iter completion/Debug formatting/mp.insert+insert_from_back+add of a fresh bar/insert_before+insert_after relative to a permanent member that other threads tick and update/mp.set_alignment/advance/sleep on 1..3 shared bars (standalone or in a MultiProgress, hidden or on a simulated terminal), tick intervals 1 ms..10 h, under a seeded random / sticky / PCT scheduler with spurious condvar wake-ups and clock jitter; every lock, condvar, spawn, join (and optionally atomic) is a scheduling point. Oracles: no deadlock (no runnable thread and no pending timer; wait-for graph reported), all threads terminate once all handles are gone, disable/replace/drop return without the virtual clock having to move and leave no ticker thread behind. ticker: one user thread with phases enable / sleep k intervals / manual tick / inc / set_message / finish / disable: the ticker paints >= k-1 frames while idle, manual ticks do not advance the spinner, consecutive ticker frames advance it by one, no ticker frames after stop, the ticker thread is gone after finish (within two intervals), disable and drop. Non-trivial: race = >= 2 threads with operations; ticker = >= 2 phases. Distinct = distinct scenario hash; distinct interleavings reported separately.".into()
+        "race: 2..3 simulated user threads each run 2..6 calls of update/enable_steady_tick/disable_steady_tick/tick/inc/set_message/println/suspend/finish/is_finished/getters/clone+drop/reset/set_length/mp.println/mp.suspend/mp.clear/mp.remove/mp.add (re-attach)/finish through a clone dropped on the same thread/set_style/message+prefix+elapsed+duration+per_sec+style getters/downgrade+upgrade/wrap_iter completion/Debug formatting/mp.insert+insert_from_back+add of a fresh bar/insert_before+insert_after relative to a permanent member that other threads tick and update/mp.set_alignment/set_tab_width/set_prefix/set_position/dec/inc_length/dec_length/unset_length/force_draw/reset_eta/reset_elapsed/finish_using_style/the with_message, with_prefix, with_position, with_tab_width, with_style builders through a clone/wrap_write/is_hidden of the bar and of the MultiProgress/MultiProgress::set_draw_target (hidden, and its terminal back)/advance/sleep on 1..3 shared bars (standalone or in a MultiProgress, hidden or on a simulated terminal), tick intervals 1 ms..10 h, under a seeded random / sticky / PCT scheduler with spurious condvar wake-ups and clock jitter; every lock, condvar, spawn, join (and optionally atomic) is a scheduling point. Oracles: no deadlock (no runnable thread and no pending timer; wait-for graph reported), all threads terminate once all handles are gone, disable/replace/drop return without the virtual clock having to move and leave no ticker thread behind. ticker: one user thread with phases enable / sleep k intervals / manual tick / inc / set_message / finish / disable: the ticker paints >= k-1 frames while idle, manual ticks do not advance the spinner, consecutive ticker frames advance it by one, no ticker frames after stop, the ticker thread is gone after finish (within two intervals), disable and drop. Non-trivial: race = >= 2 threads with operations; ticker = >= 2 phases. Distinct = distinct scenario hash; distinct interleavings reported separately.".into()
     }
     fn assumptions(&self) -> Vec<String> {
         vec![
@@ -652,7 +687,7 @@ impl Check for C08 {
             for _ in 0..n {
                 let b = rng.below(nb);
                 let owner = (b as usize) % nt == ti;
-                let k = rng.weighted(&[8, if owner { 6 } else { 0 }, if owner { 5 } else { 0 }, 4, 4, 3, 2, 2, 3, 2, 2, 2, 1, 1, 1, 1, 1, 3, 2, 2, 2, 1, 1, 1, 1, 1, 1, 1, 2, 2, 1]);
+                let k = rng.weighted(&[8, if owner { 6 } else { 0 }, if owner { 5 } else { 0 }, 4, 4, 3, 2, 2, 3, 2, 2, 2, 1, 1, 1, 1, 1, 3, 2, 2, 2, 1, 1, 1, 1, 1, 1, 1, 2, 2, 1, 6, 1]);
                 ops.push(match k {
                     0 => Op::new("update").n(b).n(rng.below(100)),
                     1 => Op::new("enable_steady_tick").n(b).n(rng.below(5)),
@@ -684,6 +719,8 @@ impl Check for C08 {
                     28 => Op::new("mp_insert_rel").n(b).n(rng.below(2)),
                     29 => Op::new("anchor_op").n(b).n(rng.below(4)),
                     30 => Op::new("debug_fmt").n(b),
+                    31 => Op::new("misc").n(b).n(rng.below(16 * 60)),
+                    32 => Op::new("mp_target").n(b).n(rng.below(2)),
                     _ => Op::new("sleep").n(0).n(*rng.pick(&[1_000_000, 15_000_000])),
                 });
             }
